@@ -1218,7 +1218,15 @@ def monitor_exact(case, real, strict_exact=True):
                 a = a + D
             lo = sum(1 for x in acc if x <= t1 - rt)
             if len(per[i]) < lo:
-                bad.append((f"every scheduled time <= t_end of constant tracker {i} is served", len(per[i]), lo))
+                sig, tf = acc[len(per[i])], real["t_final"]
+                corner = None
+                if (len(per[i]) == lo - 1 and tf is not None and not (tf > sig - EPS * dt_eff)
+                        and not (tf < t1 - EPS * dt_eff)):
+                    # the same corner as with fixed steps: the loop ended at a tracker time t_final >= t_end - 1e-6*dt
+                    # and the final handle tests t > t_next - 1e-6*dt strictly, so a time scheduled at t_end is due
+                    # for neither (recognised from the data of the run)
+                    corner = "scheduled-at-t_end-missed"
+                bad.append((f"every scheduled time <= t_end of constant tracker {i} is served", len(per[i]), lo, corner))
     # non-constant schedules: a scheduled time that is t_start itself is served at t_start
     for i, tr in enumerate(case["trackers"]):
         s = tr["sched"]
